@@ -39,6 +39,9 @@ class IntegInterp(BufInterp):
     def get_attr(self, obj, attr, node, mod):
         if attr == "total_seconds" and isinstance(obj, Sym):
             return Sym("secs_of", obj)
+        if attr in ("days", "seconds", "microseconds") and isinstance(obj, Sym):
+            # the three fields of a timedelta: total_seconds() = 86400 days + seconds + microseconds / 10^6
+            return Sym("tdpart", obj, attr)
         if attr == "to_reduced_units" and isinstance(obj, (Sym,)):
             return Sym("reduce_of", obj)
         if attr == "dtype" and isinstance(obj, Sym):
@@ -192,12 +195,81 @@ def _reps(order):
     return reps
 
 
+def _td_terms(v, acc):
+    if isinstance(v, Sym):
+        if v.op == "tdpart":
+            acc.add(v.args[0])
+        for x in v.args:
+            _td_terms(x, acc)
+    elif isinstance(v, (tuple, list)):
+        for x in v:
+            _td_terms(x, acc)
+    return acc
+
+
+def _td_rewrite(v, ds):
+    """Durations whose timedelta fields are read somewhere: their total seconds are spelled out as the sum of the three fields,
+    so a sum that leaves one out (the microseconds, the days) is a different number."""
+    if isinstance(v, Sym):
+        if v.op == "mul" and len(v.args) == 2 and SEC in v.args:
+            d = v.args[0] if v.args[1] == SEC else v.args[1]
+            if d in ds:
+                return Sym("add", Sym("add", Sym("mul", 86400, Sym("tdpart", d, "days")), Sym("tdpart", d, "seconds")),
+                           Sym("div", Sym("tdpart", d, "microseconds"), 1000000))
+        return Sym(v.op, *[_td_rewrite(x, ds) for x in v.args])
+    if isinstance(v, tuple):
+        return tuple(_td_rewrite(x, ds) for x in v)
+    if isinstance(v, list):
+        return [_td_rewrite(x, ds) for x in v]
+    return v
+
+
 def _eq(a, b, order=None):
     from ..absbase import same_value
     if order is not None:
         reps = _reps(order)
         a, b = _canon(a, order, reps), _canon(b, order, reps)
+    ds = _td_terms(b, _td_terms(a, set()))
+    if ds:
+        a, b = _td_rewrite(a, ds), _td_rewrite(b, ds)
     return same_value(a, b)
+
+
+def r29i_initial_value(repo, sink):
+    """Own rule (also part of C04: delay-resolved cycles ask for the start time again and again)."""
+    # requests at (or clamped to) the first buffered time are answered with the first value however many publications have
+    # arrived since: a delay adapter downstream clamps every early request to the source's start time, so the same time is
+    # asked again and again while the buffer grows (delay-resolved cycles, late consumers)
+    for cname, kind in (("AvgOverTime", "Avg"), ("SumOverTime", "Sum")):
+        c = repo.cls(cname)
+        f = repo.resolve(c, "_get_data", "method")
+        worst = None
+        for per_time in ((True, False) if kind == "Sum" else (True,)):
+            ctor = {"step": None}
+            if kind == "Sum":
+                ctor.update(per_time=per_time, initial_interval=INIT_IV)
+            answers = {}
+            for n in (1, 2, 3):
+                for prev in ("repeated",):  # (the first notification sets the previous-pull time to the first buffered time)
+                    order = _scenario_order(n, ("eq", 0), ("eq", 0), 0, 0, None)
+                    order.rank["q"] = order.rank["p"] = 0
+                    order.rank["dur"] = 0
+                    it = IntegInterp(repo, order)
+                    o = _fresh(_adapter_obj(repo, cname, n, extra={PREV_KEY: PREV}, ctor=ctor))
+                    try:
+                        answers[(n, prev)] = ("ret", it.run(f, [Q, None], self_obj=o))
+                    except Raised as r:
+                        answers[(n, prev)] = ("raise", r.name)
+                    except Undecided as u:
+                        raise AnalysisError(f"{cname}._get_data at the first buffered time: undecidable {u}") from u
+            ref = answers[(1, "repeated")]
+            for (n, prev), got in sorted(answers.items()):
+                if got[0] == "raise" or (ref[0] == "ret" and not _eq(got[1], ref[1], order)):
+                    worst = worst or (f"{n} buffered publication(s), {prev.replace('-', ' ')} at the first buffered time"
+                                      f"{' (per time)' if kind == 'Sum' and per_time else ''}: "
+                                      + (f"raises {got[1]}" if got[0] == "raise" else f"returns {_short(got[1])}")
+                                      + f", with a single buffered publication the answer is {_short(ref[1]) if ref[0] == 'ret' else ref}")
+        sink.check(worst is None, "R29", f"initial-value:{cname}", f, ok="a request at the first buffered time gets the first value, however long the buffer is", bad=worst or "")
 
 
 def r29_integ(repo, sink, tier="quick"):
